@@ -30,6 +30,7 @@ import (
 	"strings"
 	"time"
 	"unicode"
+	"unicode/utf8"
 
 	kmip "github.com/ovh/kmip-go"
 	"github.com/ovh/kmip-go/ttlv"
@@ -1630,6 +1631,16 @@ func (e *lexEnv) boundaryTrees() []lexTree {
 	for _, s := range []string{"\x00", "\x01\x02\x1f", "\x7f", "a\x00b", "\x08\x0c\x0b", "\ufffe\uffff"} { // JSON-representable only
 		add(&lexItem{kind: tree.KText, tag: tagFor(), data: []byte(s)}, false, true)
 	}
+	// every rune of the alphabets alone and between letters (a fast path that copies "harmless" strings is wrong for
+	// exactly one of them)
+	for _, c := range lexRunesXML {
+		add(&lexItem{kind: tree.KText, tag: tagFor(), data: []byte(string(c))}, true, true)
+		add(&lexItem{kind: tree.KText, tag: tagFor(), data: []byte("a" + string(c) + "b")}, true, true)
+	}
+	for _, c := range lexRunesJSONOnly {
+		add(&lexItem{kind: tree.KText, tag: tagFor(), data: []byte(string(c))}, false, true)
+		add(&lexItem{kind: tree.KText, tag: tagFor(), data: []byte("a" + string(c) + "b")}, false, true)
+	}
 	// tags: unnamed, named, the edges of 24 bits; outside 1..2^24-1 (correspondence only)
 	for _, t := range []int{1, 0x420000, 0x420001, 0x420078, 0x42FFFF, 0x540000, 0x54FFFF, 0xFFFFFE, 0xFFFFFF, 0x0000FF} {
 		add(&lexItem{kind: tree.KInt, tag: t, i: 7}, true, true)
@@ -1932,6 +1943,83 @@ func (e *lexEnv) handDocs() []lexDoc {
 		addJ(d, none)
 	}
 	return docs
+}
+
+// ---- text: the whole alphabet, long strings ------------------------------------------------------------------------
+
+// lexRunesXML: runes every XML 1.0 document can carry (Char production), chosen at the boundaries of the UTF-8 length
+// classes (1/2/3/4 bytes), of the classes the escapers of encoding/xml and encoding/json treat specially (markup,
+// quotes, backslash, DEL, C1 controls incl. NEL U+0085, the JavaScript line separators U+2028/U+2029, BOM, the
+// replacement character itself) and of the planes.
+var lexRunesXML = []rune{0x09, 0x0A, 0x0D, 0x20, '!', '"', '&', '\'', '<', '>', '\\', '/', 0x7E, 0x7F, 0x80, 0x85, 0x9F, 0xA0, 0xFF, 0x100, 0x7FF, 0x800,
+	0x2027, 0x2028, 0x2029, 0x202A, 0xD7FF, 0xE000, 0xFEFF, 0xFFFC, 0xFFFD, 0x10000, 0x1F600, 0xFFFFF, 0x100000, 0x10FFFF, 'é', 'ß', '€', '漢'}
+
+// lexRunesJSONOnly: valid Unicode scalar values JSON can carry but XML 1.0 cannot: every C0 control but tab / LF / CR,
+// and the two non-characters of the BMP.
+var lexRunesJSONOnly = func() []rune {
+	var rs []rune
+	for c := rune(0); c < 0x20; c++ {
+		if c != 0x09 && c != 0x0A && c != 0x0D {
+			rs = append(rs, c)
+		}
+	}
+	return append(rs, 0xFFFE, 0xFFFF)
+}()
+
+// lexGenText: n runes; mode 1 = JSON-representable, 2 = XML-representable.
+func lexGenText(r *rng.R, mode, n int) []byte {
+	rs := make([]rune, 0, n)
+	for len(rs) < n {
+		switch r.Intn(6) {
+		case 0, 1:
+			if mode == 1 && r.Bool() {
+				rs = append(rs, rng.Pick(r, lexRunesJSONOnly))
+			} else {
+				rs = append(rs, rng.Pick(r, lexRunesXML))
+			}
+		case 2: // any scalar value of a random UTF-8 length class
+			var c rune
+			switch r.Intn(4) {
+			case 0:
+				c = rune(0x20 + r.Intn(0x60))
+			case 1:
+				c = rune(0x80 + r.Intn(0x780))
+			case 2:
+				c = rune(0x800 + r.Intn(0xF800))
+			default:
+				c = rune(0x10000 + r.Intn(0x100000))
+			}
+			if (c >= 0xD800 && c <= 0xDFFF) || (mode == 2 && (c == 0xFFFE || c == 0xFFFF)) {
+				c = 0xE000
+			}
+			rs = append(rs, c)
+		default:
+			rs = append(rs, rune('a'+r.Intn(26)))
+		}
+	}
+	return []byte(string(rs))
+}
+
+// lexLongTexts: lengths around the sizes at which buffers are grown, chunked or aliased (the JSON writer builds a
+// bytes.Buffer over the SPARE capacity of its output buffer: whether the string fits it matters), with the characters
+// that need escaping at the end, at the start, and multi-byte runes straddling every boundary.
+func lexLongTexts(thor bool) []string {
+	var out []string
+	sizes := []int{63, 64, 65, 511, 512, 513, 4095, 4096, 4097, 65535, 65536, 65537, 70001}
+	if thor {
+		sizes = append(sizes, 131071, 131072, 262145, 1<<20+3)
+	}
+	for _, n := range sizes {
+		out = append(out, strings.Repeat("a", n))
+		out = append(out, strings.Repeat("a", n-1)+"\"")
+		out = append(out, "<"+strings.Repeat("b", n-2)+"&")
+		if n <= 70001 {
+			out = append(out, strings.Repeat("é", n/2)+strings.Repeat("x", n%2)) // 2-byte runes, n bytes
+			out = append(out, "x"+strings.Repeat("漢", n/3))                      // 3-byte runes misaligned by one
+			out = append(out, strings.Repeat("😀\\", n/5))
+		}
+	}
+	return out
 }
 
 // ---- time zones: the property quantifies over messages, not over machines whose zone is UTC ---------------------
@@ -2254,6 +2342,21 @@ func lexRun(ctx *Ctx) {
 	for _, t := range e.boundaryTrees() {
 		e.oneTree(ctx, t, "boundary", false)
 	}
+	// (1b) long text strings, alone and after output of various sizes
+	for i, txt := range lexLongTexts(ctx.Thor) {
+		e.oneTree(ctx, lexTree{&lexItem{kind: tree.KText, tag: 0x420094, data: []byte(txt)}, true, true, true}, "long", false)
+		pre := make([]byte, []int{0, 1, 100, 449, 3000, 5000}[i%6])
+		half := len(txt) / 2
+		for half > 0 && !utf8.RuneStart(txt[half]) {
+			half--
+		}
+		e.oneTree(ctx, lexTree{&lexItem{kind: tree.KStruct, tag: 0x420078, children: []*lexItem{
+			{kind: tree.KBytes, tag: 0x540001, data: pre},
+			{kind: tree.KText, tag: 0x420094, data: []byte(txt)},
+			{kind: tree.KText, tag: 0x540002, data: []byte("tail<\"")},
+			{kind: tree.KText, tag: 0x540003, data: []byte(txt[:half])},
+		}}, true, true, true}, "long", false)
+	}
 	// (2) hand-enumerated alternative lexical forms and element structures
 	for _, d := range e.handDocs() {
 		e.readerCase(ctx, d.c, []byte(d.doc), d.h, "hand")
@@ -2275,6 +2378,17 @@ func lexRun(ctx *Ctx) {
 			opts = tree.GenOpts{MaxDepth: 4, MaxChildren: 5, MaxData: 40, MaxBigBits: 200, TextMode: mode}
 		}
 		x := lexItemOf(tree.Gen(r, opts, 0))
+		// text over the whole alphabet (the shared generator knows a dozen runes and 16 of them at most)
+		x.walk(func(n *lexItem) {
+			if n.kind == tree.KText && r.Bool() {
+				k := r.Intn(24)
+				if r.Chance(1, 40) {
+					k = 200 + r.Intn(3000)
+				}
+				n.data = lexGenText(r, mode, k)
+				ctx.Res.Count("text.wide-alphabet")
+			}
+		})
 		origin := "gen"
 		switch i % 3 {
 		case 1:
@@ -2294,5 +2408,12 @@ func lexRun(ctx *Ctx) {
 	}
 	if lexFailCount > 20 {
 		ctx.Res.Fail(fmt.Sprintf("lex: %d harness errors in total", lexFailCount))
+	}
+	// floors: the classes of input this engine exists for were all exercised
+	for k, min := range map[string]int{"w.xml.long": 20, "w.json.long": 20, "text.wide-alphabet": 50, "w.xml.readback-positional": 20, "w.json.readback-positional": 20,
+		"zone.xml.local.ok": 50, "zone.json.in.ok": 50, "r.xml.own-positional.ok": 50, "r.json.own-positional.ok": 50, "r.xml.hand.ok": 100, "r.json.hand.ok": 100} {
+		if ctx.Res.Distribution[k] < min {
+			ctx.Res.Fail(fmt.Sprintf("lex: only %d cases of class %s (floor %d)", ctx.Res.Distribution[k], k, min))
+		}
 	}
 }
